@@ -20,6 +20,7 @@ Definition site_open (v : variant) (o : oracles) (s : site) : Prop :=
   | STraverseStruct => g_traverse_struct v = false
   | SMatrixNilMap => g_omap_nil v = false
   | SDeepCopyNil => g_deepcopy_nil v = false
+  | SExpandLiteral => g_expand_literal_len v = false
   | SOther => False
   end.
 
@@ -27,12 +28,12 @@ Definition site_open (v : variant) (o : oracles) (s : site) : Prop :=
    QuoteMeta under the law of regexp that a quoted literal always compiles *)
 Definition all_guards (v : variant) (o : oracles) : Prop :=
   g_var_len v = true /\ g_glob_nil v = true /\ g_platform_nil v = true /\ g_requires_nil v = true /\
-  g_snippet_clamp v = true /\ g_git_len v = true /\ g_traverse_struct v = true /\ g_omap_nil v = true /\ g_deepcopy_nil v = true /\
+  g_snippet_clamp v = true /\ g_git_len v = true /\ g_traverse_struct v = true /\ g_omap_nil v = true /\ g_deepcopy_nil v = true /\ g_expand_literal_len v = true /\
   (g_wc_must v = false \/ (g_wc_quote v = true /\ forall n, o_wc_quoted o n = true)).
 
 Lemma all_guards_closed : forall v o s, all_guards v o -> ~ site_open v o s.
 Proof.
-  intros v o s (H1 & H2 & H3 & H4 & H5 & H6 & H7 & H8 & H8' & H9) Ho.
+  intros v o s (H1 & H2 & H3 & H4 & H5 & H6 & H7 & H8 & H8' & H8'' & H9) Ho.
   destruct s; cbn in Ho; try congruence.
   destruct Ho as (Hm & Hq). destruct H9 as [H9 | (H9 & H10)]; [ congruence | ].
   destruct Hq as [Hq | (n & Hn)]; [ congruence | ]. rewrite H10 in Hn. discriminate.
@@ -113,13 +114,23 @@ Proof.
   destruct (g_omap_nil v) eqn:E; [ discriminate | ]. inversion H; subst. exact E.
 Qed.
 
-Lemma compile_task_open : forall gvt t s, compile_task v gvt t = Panic s -> open s.
+Lemma expand_literal_open : forall str s, expand_literal v o str = Panic s -> open s.
+Proof.
+  intros str s H. unfold expand_literal in H. destruct (is_empty str); [ discriminate | ].
+  destruct (o_words o str) as [[ | n] | ]; try discriminate.
+  destruct (g_expand_literal_len v) eqn:E; [ discriminate | ]. inversion H; subst. exact E.
+Qed.
+
+Lemma compile_task_open : forall gvt t s, compile_task v o gvt t = Panic s -> open s.
 Proof.
   intros gvt t s H. unfold compile_task in H.
   destruct (traverse v (gvt || t_vars_time t)) eqn:E1.
   - destruct (replace_globs v (t_sources t)) eqn:E2.
     + destruct (replace_globs v (t_generates t)) eqn:E3.
-      * eapply traverse_open; eauto.
+      * destruct (expand_literal v o (t_dir t)) eqn:E4.
+        -- eapply traverse_open; eauto.
+        -- discriminate.
+        -- inversion H; subst. eapply expand_literal_open; eauto.
       * discriminate.
       * inversion H; subst. apply replace_globs_open in E3 as (-> & Hg). exact Hg.
     + discriminate.
@@ -173,11 +184,12 @@ Proof.
     cbn. apply evs_open_one. eapply traverse_open; eauto.
 Qed.
 
-Lemma compile_events_open : forall gvt t c, evs_open (compile_events v gvt t c).
+Lemma compile_events_open : forall gvt t c, evs_open (compile_events v o gvt t c).
 Proof.
   intros gvt t c. unfold compile_events.
-  destruct (compile_task v gvt t) eqn:E.
+  destruct (compile_task v o gvt t) eqn:E.
   3: { apply evs_open_one. eapply compile_task_open; eauto. }
+  2: { apply evs_open_nil. }
   all: pose proof (cmd_loop_events_open (t_cmds t) c) as H1;
        destruct (cmd_loop_events v (t_cmds t) c) as [e1 c1];
        pose proof (dep_loop_events_open (t_deps t) c1) as H2;
@@ -202,6 +214,7 @@ Lemma run_events_open : forall fuel tbl t c, evs_open (run_events v o goos goarc
 Proof.
   induction fuel as [ | f IH ]; intros tbl t c; [ apply evs_open_nil | ].
   cbn [run_events].
+  destruct (expand_literal v o (t_dir t)) eqn:E0; try apply evs_open_nil.
   destruct (should_run v goos goarch (t_platforms t)) as [[ | ] | | ] eqn:E1; try apply evs_open_nil.
   2: { apply evs_open_one. eapply should_run_open; eauto. }
   assert (Hcallee : forall n b, evs_open (ev_of (traverse v b) false ++
@@ -312,12 +325,24 @@ Qed.
 Section Reader.
 Variable fs : list (string * ynode).
 
+Lemma resolve_include_open : forall i s, resolve_include v o i = Panic s -> open s.
+Proof.
+  intros i s H. unfold resolve_include in H.
+  destruct (is_remote_looking (i_taskfile i)).
+  - destruct (expand_literal v o (i_dir i)) eqn:E; try discriminate. inversion H; subst. eapply expand_literal_open; eauto.
+  - destruct (expand_literal v o (i_taskfile i)) eqn:E1; try discriminate.
+    + destruct (expand_literal v o (i_dir i)) eqn:E; try discriminate. inversion H; subst. eapply expand_literal_open; eauto.
+    + inversion H; subst. eapply expand_literal_open; eauto.
+Qed.
+
 Lemma include_panic_open : forall i s, include_panic v o i = Some s -> open s.
 Proof.
   intros i s H. unfold include_panic in H.
   destruct (i_vars_time i && negb (g_traverse_struct v)) eqn:E.
   - inversion H; subst. apply andb_true_iff in E as (_ & E). apply negb_true_iff in E. exact E.
-  - destruct (new_node v o (i_taskfile i)) eqn:En; try discriminate. inversion H; subst. eapply new_node_open; eauto.
+  - destruct (resolve_include v o i) as [ep | c | p] eqn:Er; try discriminate.
+    + destruct (new_node v o ep) eqn:En; try discriminate. inversion H; subst. eapply new_node_open; eauto.
+    + inversion H; subst. eapply resolve_include_open; eauto.
 Qed.
 
 Lemma first_panic_open : forall l s, first_panic v o l = Some s -> open s.
@@ -333,7 +358,8 @@ Proof.
   intros rec Hrec. induction incs as [ | i r IH ]; intros stack vis tfs s H; cbn in H; [ discriminate | ].
   destruct (i_vars_time i && negb (g_traverse_struct v)) eqn:Et.
   { inversion H; subst. apply andb_true_iff in Et as (_ & E). apply negb_true_iff in E. exact E. }
-  destruct (new_node v o (i_taskfile i)) as [loc | | p] eqn:En.
+  destruct (resolve_include v o i) as [ep | c | p0] eqn:Eri; [ | discriminate | inversion H; subst; eapply resolve_include_open; eauto ].
+  destruct (new_node v o ep) as [loc | | p] eqn:En.
   - destruct (lookup loc fs).
     + destruct (mem loc stack); [ discriminate | ].
       destruct (rec stack vis tfs loc) eqn:Er; try discriminate.
@@ -411,7 +437,8 @@ Proof.
   intros rec Hrec. induction incs as [ | i r IH ]; intros stack vis tfs vis' tfs' H; cbn in H.
   - inversion H; subst. intros x Hx; exact Hx.
   - destruct (i_vars_time i && negb (g_traverse_struct v)); [ discriminate | ].
-    destruct (new_node v o (i_taskfile i)) as [loc | | p].
+    destruct (resolve_include v o i) as [ep | c | p0]; try discriminate.
+    destruct (new_node v o ep) as [loc | | p].
     + destruct (lookup loc fs).
       * destruct (mem loc stack); [ discriminate | ].
         destruct (rec stack vis tfs loc) as [ | vis1 tfs1 | | ] eqn:Er; try discriminate.
@@ -443,7 +470,8 @@ Lemma read_includes_fuel : forall rec,
 Proof.
   intros rec Hmono bound Hrec. induction incs as [ | i r IH ]; intros stack vis tfs Hb H; cbn in H; [ discriminate | ].
   destruct (i_vars_time i && negb (g_traverse_struct v)); [ discriminate | ].
-  destruct (new_node v o (i_taskfile i)) as [loc | | p].
+  destruct (resolve_include v o i) as [ep | c | p0]; try discriminate.
+  destruct (new_node v o ep) as [loc | | p].
   - destruct (lookup loc fs).
     + destruct (mem loc stack); [ discriminate | ].
       destruct (rec stack vis tfs loc) as [ | vis1 tfs1 | | ] eqn:Er; try discriminate.
